@@ -36,7 +36,7 @@ def tag_of(module: str) -> str:
 	return module.replace('.', '_')
 
 
-def build_module(module: str, cls: str, vtype: str, lit: str, deps: list[dict[str, Any]], *, extra_fn: bool = False, extra_field: bool = False, with_enum: bool = False, alias: bool = False, dict_local: bool = False, syntax_error: bool = False, wide: bool = False, doc: bool = False, generic: bool = False, box: bool = False) -> str:
+def build_module(module: str, cls: str, vtype: str, lit: str, deps: list[dict[str, Any]], *, extra_fn: bool = False, extra_field: bool = False, with_enum: bool = False, alias: bool = False, dict_local: bool = False, syntax_error: bool = False, wide: bool = False, doc: bool = False, generic: bool = False, box: bool = False, prelude: bool = False) -> str:
 	"""deps: [{'module', 'cls', 'tag', 'deps': [ {'tag','cls'} ... ]}] — what this variant imports."""
 	tag = tag_of(module)
 	lines: list[str] = []
@@ -58,6 +58,9 @@ def build_module(module: str, cls: str, vtype: str, lit: str, deps: list[dict[st
 
 	if lines:
 		lines += ['', '']
+	if prelude:
+		# a class inserted above all others: every later class_def[i] / function_def[i] path now denotes another declaration than in the sibling variants
+		lines += [f'class Zero_{tag}:', '\tz: int', '', '\tdef __init__(self) -> None:', '\t\tself.z = 0', '', '']
 	if generic:
 		# own generic class, concrete subclass reading the inherited template-typed field, quoted forward reference G['L'] to a class declared later
 		lines += [f"T_{tag} = TypeVar('T_{tag}')", f"TK_{tag} = TypeVar('TK_{tag}')", f"TV_{tag} = TypeVar('TV_{tag}')", f"TE_{tag} = TypeVar('TE_{tag}')", '', '',
@@ -234,6 +237,9 @@ def gen_pool(rng: random.Random, shape: str | None = None, n_variants: int | Non
 			kw = dict(flags[i])
 			note = f'T={vtype}'
 			dropped: set[int] = set()
+			if v > 0 and v == k - 1:
+				kw['prelude'] = True
+				note += '+prelude'
 			if v > 0:
 				r = rng.random()
 				if r < 0.25:
